@@ -11,6 +11,10 @@ import UgoVerif.Gen.Opcodes
   * the variable mechanism of the VM model: DEFINELOCAL overwrites the slot — a fresh
     variable per executed declaration, even when the old variable was captured (boxed) —
     whereas SETLOCAL writes through an existing box, so closures see assignments;
+  * argument binding of the VM model without spread (`callCompiled_fixed`, `callCompiled_variadic`,
+    the two arity errors): the parameters ARE the arguments in order, the variadic parameter gets a
+    fresh array of exactly the remaining arguments (`rest_eq_drop_args`: the same list the
+    reference rule `Sem.bindArgs` binds), the other locals start as undefined;
   * consistency of the hand-written opcode / token numbers of the VM and compiler models
     with the tables regenerated from opcodes.go and token/token.go.
 
@@ -115,6 +119,194 @@ theorem setLocal_writes_through_box (s : State) (idx : Nat) (v : V) (a : Addr)
   simp only [hbox, exec_bind, exec_heapSet, exec_setSp]
   rw [exec_stackSet _ _ _ (by simp; omega)]
   simp only [exec_bumpIp, exec_pure]
+
+/-! ### call argument binding in the VM model (vm.go xOpCallCompiled, no spread) -/
+
+set_option linter.unusedSimpArgs false
+set_option linter.unusedVariables false
+
+theorem foldl_set_size (st : Array V) (v : V) (f : Nat → Nat) (l : List Nat) :
+    (l.foldl (fun st k => st.setIfInBounds (f k) v) st).size = st.size := by
+  induction l generalizing st with
+  | nil => rfl
+  | cons k r ih => simp [List.foldl_cons, ih]
+
+theorem foldl_set_get? (st : Array V) (v : V) (f : Nat → Nat) (l : List Nat) (j : Nat) :
+    (l.foldl (fun st k => st.setIfInBounds (f k) v) st)[j]? =
+      if (∃ k ∈ l, f k = j) ∧ j < st.size then some v else st[j]? := by
+  induction l generalizing st with
+  | nil => simp
+  | cons k r ih =>
+    simp only [List.foldl_cons]
+    rw [ih]
+    by_cases hk : f k = j
+    · subst hk
+      by_cases hs : f k < st.size
+      · simp [hs, Array.getElem?_setIfInBounds]
+      · simp [hs]
+    · by_cases hr : ∃ k' ∈ r, f k' = j
+      · simp [hr, hk, Array.getElem?_setIfInBounds]
+      · simp [hr, hk, Array.getElem?_setIfInBounds]
+
+def fillLocals (st : Array V) (bp : Int) (numParams numLocals : Nat) : Array V :=
+  (List.range' 0 (numLocals - numParams)).foldl (fun st (k : Nat) => st.set! (bp + (numParams : Int) + (k : Int)).toNat .undefined) st
+
+theorem fillLocals_get? (st : Array V) (bp : Int) (np nl j : Nat) (hbp : 0 ≤ bp) :
+    (fillLocals st bp np nl)[j]? =
+      if (bp.toNat + np ≤ j ∧ j < bp.toNat + nl) ∧ j < st.size then some .undefined else st[j]? := by
+  unfold fillLocals
+  simp only [Array.set!_eq_setIfInBounds]
+  rw [foldl_set_get? st .undefined (fun k => (bp + (np : Int) + (k : Int)).toNat)]
+  have : (∃ k ∈ List.range' 0 (nl - np), (bp + (np : Int) + (k : Int)).toNat = j) ↔ (bp.toNat + np ≤ j ∧ j < bp.toNat + nl) := by
+    constructor
+    · rintro ⟨k, hk, rfl⟩
+      simp [List.mem_range'] at hk
+      omega
+    · intro ⟨h1, h2⟩
+      refine ⟨j - (bp.toNat + np), ?_, ?_⟩
+      · simp [List.mem_range']; omega
+      · omega
+  simp only [this]
+
+/-- the arguments (= parameters) are not touched -/
+theorem fillLocals_param (st : Array V) (bp : Int) (np nl i : Nat) (hbp : 0 ≤ bp) (hi : i < np) :
+    (fillLocals st bp np nl)[(bp + i).toNat]! = st[(bp + i).toNat]! := by
+  have h := fillLocals_get? st bp np nl (bp + i).toNat hbp
+  have hn : ¬ (bp.toNat + np ≤ (bp + (i : Int)).toNat) := by omega
+  simp only [hn, false_and, if_false] at h
+  simp [getElem!_def, h]
+
+/-- every other local starts as `undefined` -/
+theorem fillLocals_local (st : Array V) (bp : Int) (np nl i : Nat) (hbp : 0 ≤ bp) (h1 : np ≤ i) (h2 : i < nl)
+    (hs : (bp + i).toNat < st.size) :
+    (fillLocals st bp np nl)[(bp + i).toNat]! = .undefined := by
+  have h := fillLocals_get? st bp np nl (bp + i).toNat hbp
+  have hy : (bp.toNat + np ≤ (bp + (i : Int)).toNat ∧ (bp + (i : Int)).toNat < bp.toNat + nl) ∧ (bp + (i : Int)).toNat < st.size := by
+    refine ⟨⟨by omega, by omega⟩, hs⟩
+  simp only [hy, and_self, if_true] at h
+  simp [getElem!_def, h]
+
+/-- fixed arity, wrong number of arguments: WrongNumberOfArgumentsError, nothing else happens -/
+theorem callCompiled_fixed_arity_error (fa : Addr) (numArgs : Int) (s : State) (code : Code) (free : Option (List Addr))
+    (hcell : exec (fnCell fa) s = (.ok (code, free), s))
+    (hnv : code.variadic = false) (hargs : numArgs ≠ code.numParams) :
+    exec (callCompiled fa numArgs 0) s =
+      (.ok (.error (.named "WrongNumberOfArgumentsError" (wantEq code.numParams numArgs))), s) := by
+  unfold callCompiled
+  simp only [exec_bind, hcell, exec_getSp]
+  simp [hnv, hargs, exec_pure]
+
+set_option maxHeartbeats 1000000 in
+/-- fixed arity, right number of arguments, not a self tail call: a new frame is entered whose base
+    pointer is the first argument — the arguments ARE the parameters, in order, untouched — the
+    remaining locals are undefined, and the caller's frame remembers where to continue. -/
+theorem callCompiled_fixed (fa : Addr) (numArgs : Int) (s : State) (code : Code) (free : Option (List Addr))
+    (hcell : exec (fnCell fa) s = (.ok (code, free), s))
+    (hnv : code.variadic = false) (hargs : numArgs = code.numParams)
+    (hself : (s.frames[s.curFrame]!).fn ≠ some fa)
+    (hfi : 0 ≤ s.frameIndex ∧ s.frameIndex + 1 ≤ (frameSize : Int) - 1)
+    (hbp : 0 ≤ s.sp - numArgs) (hroom : s.sp - numArgs + code.numLocals ≤ (stackSize : Int))
+    (hnl : code.numParams ≤ code.numLocals) :
+    exec (callCompiled fa numArgs 0) s = (.ok (.ok ()),
+      { s with stack := fillLocals s.stack (s.sp - numArgs) code.numParams code.numLocals,
+               frameIndex := s.frameIndex + 1,
+               frames := (s.frames.modify s.curFrame fun f => { f with ip := s.ip + 2 }).modify s.frameIndex.toNat fun f =>
+                  { f with fn := some fa, free := free, handlers := none, bp := s.sp - numArgs, discard := false },
+               curFrame := s.frameIndex.toNat, sp := s.sp - numArgs + code.numLocals, ip := -1 }) := by
+  unfold callCompiled
+  simp only [exec_bind, hcell, exec_getSp]
+  simp only [hnv, hargs, bne_self_eq_false, Bool.false_eq_true, ↓reduceIte, Bool.not_false, beq_self_eq_true, exec_pure]
+  subst hargs
+  have hloop := exec_range_stackSet .undefined ((code.numLocals : Int) - code.numParams).toNat s
+      (fun k => s.sp - (code.numParams : Int) + code.numParams + k) (by intro k hk; constructor <;> omega)
+  simp only [exec_bind]
+  rw [hloop]
+  have hne : ((s.frames[s.curFrame]!).fn == some fa) = false := by
+    simpa using hself
+  simp only [exec_curFrame, exec_getIp, hne, Bool.false_eq_true, ↓reduceIte, exec_getS]
+  have h1 : ¬ (s.frameIndex < 0) := by omega
+  have h1' : ¬ (s.frameIndex ≥ (frameSize : Int)) := by omega
+  have h2 : ¬ (s.frameIndex + 1 > (frameSize : Int) - 1) := by omega
+  simp [exec_bind, exec_getS, exec_modS, exec_setSp, exec_setIp, exec_pure, h1, h1', h2, fillLocals]
+  rfl
+
+/-- variadic callee, too few arguments: WrongNumberOfArgumentsError -/
+theorem callCompiled_variadic_arity_error (fa : Addr) (numArgs : Int) (s : State) (code : Code) (free : Option (List Addr))
+    (hcell : exec (fnCell fa) s = (.ok (code, free), s))
+    (hv : code.variadic = true) (hargs : numArgs < (code.numParams : Int) - 1) :
+    exec (callCompiled fa numArgs 0) s =
+      (.ok (.error (.named "WrongNumberOfArgumentsError" (wantGE ((code.numParams : Int) - 1) numArgs))), s) := by
+  unfold callCompiled
+  simp only [exec_bind, hcell, exec_getSp]
+  simp [hv, hargs, exec_pure]
+
+set_option maxHeartbeats 2000000 in
+/-- variadic callee with at least the fixed parameters supplied (no spread), not a self tail call:
+    the fixed parameters are the first arguments, untouched; ALL remaining arguments, in order,
+    become a fresh array stored in the variadic parameter's slot; the other locals are undefined. -/
+theorem callCompiled_variadic (fa : Addr) (numArgs : Int) (s : State) (code : Code) (free : Option (List Addr))
+    (hcell : exec (fnCell fa) s = (.ok (code, free), s))
+    (hv : code.variadic = true) (hnp : 1 ≤ code.numParams) (hargs : (code.numParams : Int) - 1 ≤ numArgs)
+    (hself : (s.frames[s.curFrame]!).fn ≠ some fa)
+    (hfi : 0 ≤ s.frameIndex ∧ s.frameIndex + 1 ≤ (frameSize : Int) - 1)
+    (hbp : 0 ≤ s.sp - numArgs) (hsp : s.sp ≤ (stackSize : Int))
+    (hroom : s.sp - numArgs + code.numLocals ≤ (stackSize : Int))
+    (hnl : code.numParams ≤ code.numLocals) :
+    let bp := s.sp - numArgs
+    let rest := (s.stack.toList.drop (bp + code.numParams - 1).toNat).take (numArgs - ((code.numParams : Int) - 1)).toNat
+    exec (callCompiled fa numArgs 0) s = (.ok (.ok ()),
+      { s with heap := s.heap.push (.arr rest.toArray),
+               stack := fillLocals (s.stack.set! (bp + code.numParams - 1).toNat (.arr s.heap.size 0 rest.length)) bp code.numParams code.numLocals,
+               frameIndex := s.frameIndex + 1,
+               frames := (s.frames.modify s.curFrame fun f => { f with ip := s.ip + 2 }).modify s.frameIndex.toNat fun f =>
+                  { f with fn := some fa, free := free, handlers := none, bp := bp, discard := false },
+               curFrame := s.frameIndex.toNat, sp := bp + code.numLocals, ip := -1 }) := by
+  intro bp rest
+  unfold callCompiled
+  simp only [exec_bind, hcell, exec_getSp]
+  have hlt : ¬ (numArgs < (code.numParams : Int) - 1) := by omega
+  simp only [hv, Bool.not_true, Bool.false_eq_true, ↓reduceIte, bne_iff_ne, ne_eq, hlt, decide_false, exec_pure]
+  have hne : ((s.frames[s.curFrame]!).fn == some fa) = false := by simpa using hself
+  have h1 : ¬ (s.frameIndex < 0) := by omega
+  have h1' : ¬ (s.frameIndex ≥ (frameSize : Int)) := by omega
+  have h2 : ¬ (s.frameIndex + 1 > (frameSize : Int) - 1) := by omega
+  have hl := fun (t : State) => exec_range_stackSet .undefined ((code.numLocals : Int) - code.numParams).toNat t
+      (fun k => s.sp - numArgs + code.numParams + k) (by intro k hk; constructor <;> omega)
+  by_cases heq : numArgs = (code.numParams : Int) - 1
+  · have hset := fun (v : V) (t : State) => exec_stackSet (s.sp - numArgs + numArgs) v t (by constructor <;> omega)
+    have hrest : rest = [] := by
+      show List.take _ _ = []
+      have : (numArgs - ((code.numParams : Int) - 1)).toNat = 0 := by omega
+      rw [this]; simp
+    simp only [heq, beq_self_eq_true, ↓reduceIte, exec_bind, exec_newArray] at hl hset ⊢
+    simp only [hset, hl, exec_curFrame, exec_getIp, hne, Bool.false_eq_true, ↓reduceIte, exec_getS]
+    have e1 : (s.sp - ((code.numParams : Int) - 1) + code.numParams - 1).toNat = s.sp.toNat := by omega
+    simp [exec_bind, exec_getS, exec_modS, exec_setSp, exec_setIp, exec_pure, h1, h1', h2, fillLocals, hrest, bp, heq, e1]
+    rfl
+  · have hslice := fun (t : State) => exec_stackSlice (s.sp - numArgs + code.numParams - 1) (s.sp - numArgs + numArgs) t
+        (by refine ⟨?_, ?_, ?_⟩ <;> omega)
+    have hset := fun (v : V) (t : State) => exec_stackSet (s.sp - numArgs + code.numParams - 1) v t (by constructor <;> omega)
+    have hb : (numArgs == (code.numParams : Int) - 1) = false := by simpa using heq
+    simp only [beq_self_eq_true, hb, Bool.false_eq_true, ↓reduceIte, exec_bind, hslice, exec_newArray]
+    simp only [hset, hl, exec_curFrame, exec_getIp, hne, Bool.false_eq_true, ↓reduceIte, exec_getS]
+    have e2 : s.sp - numArgs + numArgs - (s.sp - numArgs + ↑code.numParams - 1) = numArgs - ((code.numParams : Int) - 1) := by omega
+    have e3 : s.sp - (s.sp - numArgs + ↑code.numParams - 1) = numArgs - ((code.numParams : Int) - 1) := by omega
+    simp [exec_bind, exec_getS, exec_modS, exec_setSp, exec_setIp, exec_pure, h1, h1', h2, fillLocals, bp, rest, e2, e3]
+    rfl
+
+/-- the arguments of a call as they lie on the operand stack: `stack[sp-numArgs : sp]` -/
+def argsOnStack (s : State) (numArgs : Int) : List V :=
+  (s.stack.toList.drop (s.sp - numArgs).toNat).take numArgs.toNat
+
+/-- the array the variadic parameter receives is exactly "all remaining arguments" of the
+    reference rule `Sem.bindArgs`: the arguments after the first `numParams - 1` -/
+theorem rest_eq_drop_args (s : State) (numArgs : Int) (np : Nat) (hnp : 1 ≤ np) (hbp : 0 ≤ s.sp - numArgs)
+    (hargs : (np : Int) - 1 ≤ numArgs) :
+    (s.stack.toList.drop (s.sp - numArgs + np - 1).toNat).take (numArgs - ((np : Int) - 1)).toNat
+      = (argsOnStack s numArgs).drop (np - 1) := by
+  unfold argsOnStack
+  rw [List.drop_take, List.drop_drop]
+  congr 2 <;> omega
 
 /-! ### numbering ties -/
 
